@@ -76,13 +76,16 @@ let run (path : String.t) =
       if not (obs_c01_ok evs) then (add "c01"; add "c08");
       if not (obs_c16_ok evs) then add "c16";
       if not (obs_c09_bounded_ok evs) then add "c09";
+      if not (obs_repoll_ok evs) then (add "c09"; add "c01");
       let drained = (fin = "quiesce" || fin = "close") && !special = None in
       if drained then begin
         (* wake-driven final phase: sinks ready, publishers idle or finished *)
         let had_failures = List.exists (function ESinkReady (_, RErr) | ESinkFlush (_, RErr) | ESinkSend (_, _, false) -> true | _ -> false) evs in
         if not (obs_delivered_all evs && obs_all_adopted evs) then (add "c01"; add "c09"; if had_failures then add "c08");
         if accepted && not (delivered_all st) then (add "c01"; add "c09"; if had_failures then add "c08");
-        if fin = "close" && not (completed evs) then (add "c16"; add "c09")
+        if fin = "close" && not (completed evs) then (add "c16"; add "c09");
+        let was_closed = List.exists (function EClose _ -> true | _ -> false) evs in
+        if fin = "quiesce" && not was_closed && not (obs_streams_polled_to_pending evs) then (add "c09"; add "c01")
       end;
       let prop = (!viol = []) in
       if List.exists (function ESinkReady (_, RPending) | ESinkFlush (_, RPending) | ESinkReady (_, RErr) | ESinkSend (_, _, false) -> true | _ -> false) evs
